@@ -329,7 +329,13 @@ func (e *Executor) runDeferred(ctx context.Context, t *ast.Task, call *Call, i i
 	}
 
 	cmd := t.Cmds[i]
-	vars, _ := e.Compiler.GetVariables(origTask, call)
+	vars, err := e.Compiler.GetVariables(origTask, call)
+	if err != nil {
+		// (a variable that cannot be evaluated any more, like a dynamic one whose
+		// command now fails: there is nothing to render the command with)
+		e.Logger.VerboseErrf(logger.Yellow, "task: ignored error in deferred cmd: %s\n", err.Error())
+		return
+	}
 	cache := &templater.Cache{Vars: vars}
 	extra := map[string]any{}
 
